@@ -172,6 +172,22 @@ void algorithms() {
                                     [&](tbb::flow_control& fc) -> int { fc.stop(); return 0; }) &
             tbb::make_filter<int, void>(tbb::filter_mode::parallel, [](int) {}),
         ctx);
+    // filter objects: copy, assignment, composition in place, clear; a filter chain run from a named object
+    tbb::filter<void, int> fin = tbb::make_filter<void, int>(tbb::filter_mode::serial_in_order,
+                                                           [&](tbb::flow_control& fc) -> int { fc.stop(); return 0; });
+    tbb::filter<int, void> fout(tbb::filter_mode::parallel, [](int) {});
+    tbb::filter<void, int> fin2(fin);
+    fin2 = fin;
+    tbb::filter<int, int> mid = tbb::make_filter<int, int>(tbb::filter_mode::serial_out_of_order, [](int i) -> int { return i; });
+    mid &= tbb::make_filter<int, int>(tbb::filter_mode::parallel, [](int i) -> int { return i; });
+    tbb::filter<void, void> whole = fin2 & mid & fout;
+    tbb::parallel_pipeline(2, whole);
+    whole.clear();
+    // feeder with a class-type item added by copy and by move
+    std::vector<std::string> vs(3, std::string("ab"));
+    tbb::parallel_for_each(vs.begin(), vs.end(), [](std::string& x, tbb::feeder<std::string>& f) {
+        if (x.size() > 1) { std::string y(x.substr(1)); f.add(y); f.add(std::move(y)); }
+    });
 }
 
 // Every public overload of the loop / reduction / scan / sort entry points at least once (rule C05/C06 "overload family
